@@ -64,6 +64,10 @@ func profileWeights(p string) weights {
 // salts at the corners of int64 (the field is a 64-bit integer without any structure)
 var extremeSalts = []int64{0, 1, -1, 1 << 32, (1 << 32) + 5, -(1 << 40), math.MaxInt64, math.MinInt64, math.MaxInt32, math.MinInt32}
 
+// seq_nos with the top bit set (and the largest one without), by parity of the low bit
+var bigOddSeqs = []int32{-2147483647, -1, 2147483647}
+var bigEvenSeqs = []int32{-2147483648, -2}
+
 var gzDamage = []string{"crc", "isize", "deflate"}
 
 var rawVariants = []string{"errcode", "badparity", "truncated", "corrupt", "wrongkey"}
@@ -124,7 +128,25 @@ func (r *run) playRandom(g *vc.Rng, profile string) {
 		b    *bodySpec
 	}
 	var contents []contentMsg // content-related service messages already sent (candidates for a repeat)
+	// seq_no is a 32-bit pattern whose low bit says "content-related": in the c10 and c16 profiles one message
+	// (and one container item) in ten carries a seq_no at or above 2^31 of the same parity - as int32 these are
+	// negative: 0x80000001, 0xffffffff, 0x7fffffff (just below) odd; 0x80000000, 0xfffffffe even
+	wide := func(seq int32) int32 {
+		if (profile != "c10" && profile != "c16") || g.Intn(10) != 0 {
+			return seq
+		}
+		if seq&1 == 1 {
+			return bigOddSeqs[g.Intn(len(bigOddSeqs))]
+		}
+		return bigEvenSeqs[g.Intn(len(bigEvenSeqs))]
+	}
 	send := func(s int64, seq int32, b *bodySpec) {
+		seq = wide(seq)
+		if b.op == "cont" {
+			for i := range b.items {
+				b.items[i].seq = wide(b.items[i].seq)
+			}
+		}
 		r.slog(fmt.Sprintf("srv %d %d %s", s, seq, b.script()))
 		r.doSrv(s, seq, b)
 	}
